@@ -7,7 +7,8 @@ Days(lo, hi) == {CivilFromDays(n) : n \in DFC(lo)..DFC(hi)}
 QWindow == Days(Date(2019, 12, 28), Date(2020, 3, 2)) \cup Days(Date(2020, 12, 28), Date(2021, 3, 2))
            \cup {Date(2020, m, DIM(2020, m)) : m \in 1..12} \cup {Date(2020, m, 30) : m \in {4, 6, 8, 9, 11}}
 \* thorough window: four contiguous years including a leap year
-TWindow == Days(Date(2019, 1, 1), Date(2022, 12, 31))
+\* (a four-year window is 17 million transitions - hours of TLC; 15 months around a leap day and two year ends is 1.7 million)
+TWindow == Days(Date(2019, 12, 1), Date(2021, 3, 5))
 \* negative-year window (astronomical year 0 is leap, -1 is not)
 NWindow == Days(Date(-1, 12, 25), Date(0, 3, 3)) \cup {Date(-1, 1, 31), Date(-1, 2, 28), Date(0, 12, 31), Date(1, 1, 1), Date(1, 2, 28)}
 
